@@ -191,6 +191,11 @@ def check_after_fit(mw):
         merrs = np.asarray(multi.parameter_errors, dtype=float)
         mcov = multi.parameter_cov_mat
         mcor = multi.parameter_cor_mat
+        # a parameter fixed on the multi-fit has exactly the common value it had when the fit started (whoever assigned that value)
+        for p, val in mw.fixed.items():
+            got = float(mvals[mw.par_names.index(p)])
+            if got != float(val):
+                out.append(("multi.parameter_values:%s (fixed)" % p, float(val), got, "fixed-moved"))
         for i, w in enumerate(mw.members):
             idx = [mw.par_names.index(p) for p in w.par_names]
             f = w.fit
